@@ -8,25 +8,31 @@ inductive XCmd
   | c (x : Cmd)
   | fin                    -- resume until the run is no longer paused (at most 200 times)
 
+def parseBp (ts : List String) : Option Bp :=
+  match ts with
+  | ["BT", t, o] => some (.time (natD t) (natD o != 0))
+  | ["BC", n, o] => some (.count (natD n) (natD o != 0))
+  | ["BK", k, o] => some (.kind (natD k) (natD o != 0))
+  | ["BM", x, a, op, thr2, o] =>
+    let c : Cmp := match op with
+      | "gt" => .gt | "ge" => .ge | "lt" => .lt | "le" => .le | "eq" => .eq | _ => .ne
+    some (.metric (natD x) (natD a) c (intD thr2) (natD o != 0))
+  | ["BX", n, o] => some (.countEq (natD n) (natD o != 0))
+  | _ => none
+
 def parseCmd (ts : List String) : Option XCmd :=
   match ts with
   | ["cmd", "P"] => some (.c .pause)
   | ["cmd", "G"] => some (.c .go)
   | ["cmd", "S", n] => some (.c (.step (natD n)))
-  | ["cmd", "BT", t, o] => some (.c (.bp (.time (natD t) (natD o != 0))))
-  | ["cmd", "BC", n, o] => some (.c (.bp (.count (natD n) (natD o != 0))))
-  | ["cmd", "BK", k, o] => some (.c (.bp (.kind (natD k) (natD o != 0))))
-  | ["cmd", "BM", x, a, op, thr2, o] =>
-    let c : Cmp := match op with
-      | "gt" => .gt | "ge" => .ge | "lt" => .lt | "le" => .le | "eq" => .eq | _ => .ne
-    some (.c (.bp (.metric (natD x) (natD a) c (intD thr2) (natD o != 0))))
-  | ["cmd", "BX", n, o] => some (.c (.bp (.countEq (natD n) (natD o != 0))))
+  | "cmd" :: "HB" :: k :: rest => (parseBp rest).map fun b => .c (.bpAt (natD k) b)
   | ["cmd", "CLR"] => some (.c .clear)
   | ["cmd", "HP", k] => some (.c (.pauseAt (natD k)))
   | ["cmd", "RST"] => some (.c .reset)
   | ["cmd", "SCH", tgt, kind, mode, t, dm] =>
     some (.c (.sched ⟨natD t, natD tgt, natD kind, natD dm != 0, 0, 0⟩ (mode == "R")))
   | ["cmd", "FIN"] => some .fin
+  | "cmd" :: rest => (parseBp rest).map fun b => .c (.bp b)
   | _ => none
 
 /-- the process layer's side of events created outside the loop: the creation-index mirror, the
